@@ -29,6 +29,7 @@ var (
 	errStat     = errors.New("verif: stat pid file: permission denied")
 	errPidRead  = errors.New("verif: read pid file: input/output error")
 	errPrevRead = errors.New("verif: read children file: input/output error")
+	errChildRd  = errors.New("verif: read children file: no such process")
 )
 
 // VerAns is one scripted answer of the version endpoint.
@@ -45,7 +46,8 @@ type Script struct {
 	PidRead  string // content of the pid file; "\x00err" = read error
 	PrevErr  bool   // the read of the children file before the signal fails
 	Kill     bool   // kill(pid, HUP) succeeds
-	Child    string // changed | same | removed | delayed | exit (a worker exits, nothing new starts)
+	Spurious bool   // kill fails, yet new workers appear (the master was reloaded by someone else)
+	Child    string // changed | same | removed | delayed | exit (an old worker is replaced, the new files are not loaded)
 	DelayMs  int
 	Vers     []VerAns
 	Stale    int // answered forever once Vers is exhausted
@@ -77,6 +79,8 @@ type Master struct {
 	workerSeq   int
 	diskVersion int // version found in the generated config-version.conf (handler mode)
 	loaded      int // version the current workers run
+	diskGen     int // identity of the file set on disk (bumped by every write)
+	loadedGen   int // identity of the file set the current workers were started with
 }
 
 func newMaster(root string, pid int) (*Master, error) {
@@ -178,6 +182,9 @@ func (m *Master) kill(pid int) error {
 	defer m.mu.Unlock()
 	m.killCalls++
 	if !m.sc.Kill {
+		if m.sc.Spurious {
+			m.respawn()
+		}
 		return syscall.ESRCH
 	}
 	if pid != m.pid {
@@ -191,7 +198,10 @@ func (m *Master) kill(pid int) error {
 	case "removed":
 		_ = os.Remove(m.childPath)
 	case "exit":
-		_ = os.WriteFile(m.childPath, []byte(fmt.Sprintf("%d ", m.workerSeq+1)), 0o644)
+		// one old worker goes away (exit of a draining worker / crash + respawn with the OLD
+		// configuration): the children file changes, nothing new is loaded
+		m.workerSeq++
+		m.writeChildren()
 	case "delayed":
 		d := time.Duration(m.sc.DelayMs) * time.Millisecond
 		go func() {
@@ -212,6 +222,7 @@ func (m *Master) respawn() {
 	m.workerSeq += 2
 	m.writeChildren()
 	m.loaded = m.diskVersion
+	m.loadedGen = m.diskGen
 }
 
 func (m *Master) serveVersion(w http.ResponseWriter, r *http.Request) {
@@ -249,9 +260,10 @@ func (m *Master) serveVersion(w http.ResponseWriter, r *http.Request) {
 		_, _ = w.Write([]byte(strconv.Itoa(a.V)))
 	case "e500":
 		w.WriteHeader(http.StatusInternalServerError)
-		_, _ = w.Write([]byte("5"))
+		_, _ = w.Write([]byte(strconv.Itoa(a.V))) // the body alone would be accepted
 	case "e404":
 		w.WriteHeader(http.StatusNotFound)
+		_, _ = w.Write([]byte(strconv.Itoa(a.V)))
 	case "garbage":
 		_, _ = w.Write([]byte("abc"))
 	case "empty":
@@ -278,6 +290,13 @@ func (m *Master) state() (hup, chg bool, served string, verReqs, killCalls int) 
 		served = strconv.Itoa(*m.served)
 	}
 	return m.hup && !m.wrongPid, chg, served, m.verReqs, m.killCalls
+}
+
+// runsDisk: the workers run exactly the files that are on disk now.
+func (m *Master) runsDisk() bool {
+	m.mu.Lock()
+	defer m.mu.Unlock()
+	return m.loadedGen == m.diskGen
 }
 
 // procHandler is the ProcessHandler given to the real ManagerImpl: the real FindMainProcess and
